@@ -47,36 +47,42 @@ Theorem C09_emitted_samples_are_legal : forall c s, c_keep c = false -> legal c 
 Proof. exact emitted_modes. Qed.
 Print Assumptions C09_emitted_samples_are_legal.
 
-(* NoisySamplingSimulator.samples as a whole (fast path, empty exits, loop with the re-scaled shot limit).
-   FULL STATEMENT, false of the code as it is:
-     forall c hd fast sd ratio os, sim_len (sim_samples c hd fast sd ratio os) <= min(max_samples, max_shots)
-   where [ratio] is the floating-point value of max_shots * physical_perf / (1 - zpp) in _compute_samples_with_perf. *)
-Theorem C09_sample_bounds_refuted : exists c hd fast sd ratio os,
-  (limit c < sim_len (sim_samples c hd fast sd ratio os))%nat.
-Proof. exact sample_bounds_refuted. Qed.
-Print Assumptions C09_sample_bounds_refuted.
+(* NoisySamplingSimulator.samples as a whole (fast path, empty exits, loop with the re-scaled shot limit), THE CODE AS
+   IT IS NOW (after /repo commit 869f2c44): at most min(max_samples, max_shots) samples, for every value [x] of the
+   floating-point product max_shots * physical_perf / (1 - zpp) and every adversarial trace. *)
+Theorem C09_sample_bounds : forall c hd fast sd x os,
+  (sim_len (sim_samples c hd fast sd x os) <= limit c)%nat.
+Proof. exact sample_bounds. Qed.
+Print Assumptions C09_sample_bounds.
 
-Theorem C09_sample_bounds_partial : forall c hd fast sd ratio os,
-  (forall k, c_max_shots c = Some k -> ratio <= nat_q k) ->
-  (sim_len (sim_samples c hd fast sd ratio os) <= limit c)%nat.
-Proof. exact sample_bounds_partial. Qed.
-Print Assumptions C09_sample_bounds_partial.
+(* HISTORICAL, about the code before 869f2c44 (max_shots = ceil(x), unclamped): the bound failed ... *)
+Theorem C09_sample_bounds_refuted_old_code : exists c hd fast sd x os,
+  (limit c < sim_len (sim_samples_old_code c hd fast sd x os))%nat.
+Proof. exact sample_bounds_refuted_old_code. Qed.
+Print Assumptions C09_sample_bounds_refuted_old_code.
+
+(* ... and held only when the float product did not exceed max_shots *)
+Theorem C09_sample_bounds_partial_old_code : forall c hd fast sd x os,
+  (forall k, c_max_shots c = Some k -> x <= nat_q k) ->
+  (sim_len (sim_samples_old_code c hd fast sd x os) <= limit c)%nat.
+Proof. exact sample_bounds_partial_old_code. Qed.
+Print Assumptions C09_sample_bounds_partial_old_code.
 
 Example C09_ratio_hypothesis_satisfiable : Q2Qc (15 # 4) <= nat_q 5.
 Proof. vm_compute. discriminate. Qed.
 
-Theorem C09_sample_bounds_max_samples : forall c hd fast sd ratio os,
-  (sim_len (sim_samples c hd fast sd ratio os) <= c_max_samples c)%nat.
+Theorem C09_sample_bounds_max_samples : forall old c hd fast sd x os,
+  (sim_len (sim_samples_cfg old c hd fast sd x os) <= c_max_samples c)%nat.
 Proof. exact sample_bounds_max_samples. Qed.
 Print Assumptions C09_sample_bounds_max_samples.
 
-Theorem C09_sample_bounds_zero : forall c hd fast sd ratio os,
-  c_max_samples c = 0%nat \/ c_max_shots c = Some 0%nat -> sim_len (sim_samples c hd fast sd ratio os) = 0%nat.
+Theorem C09_sample_bounds_zero : forall old c hd fast sd x os,
+  c_max_samples c = 0%nat \/ c_max_shots c = Some 0%nat -> sim_len (sim_samples_cfg old c hd fast sd x os) = 0%nat.
 Proof. exact sample_bounds_zero. Qed.
 Print Assumptions C09_sample_bounds_zero.
 
-Theorem C09_simulator_samples_are_legal : forall c hd fast sd ratio os s,
-  sim_samples c hd fast sd ratio os = SimLoop s -> Forall (legal c) (l_out s).
+Theorem C09_simulator_samples_are_legal : forall old c hd fast sd x os s,
+  sim_samples_cfg old c hd fast sd x os = SimLoop s -> Forall (legal c) (l_out s).
 Proof. exact sim_legal. Qed.
 Print Assumptions C09_simulator_samples_are_legal.
 
@@ -85,13 +91,32 @@ Theorem C09_fast_path_returns_the_request : forall fuel n a, (n - a <= fuel)%nat
 Proof. exact perfect_batches_sum. Qed.
 Print Assumptions C09_fast_path_returns_the_request.
 
-Theorem C09_sampler_wrapper_bound : forall cap ms msh n k c hd fast sd ratio os,
-  (forall j, c_max_shots c = Some j -> ratio <= nat_q j) ->
+Theorem C09_sampler_wrapper_bound : forall cap ms msh n k c hd fast sd x os,
   wrapper_limits cap ms msh = Some (n, k) -> c_max_samples c = n -> c_max_shots c = k ->
-  (forall a, ms = Some a -> sim_len (sim_samples c hd fast sd ratio os) <= a)%nat /\
-  (forall b, msh = Some b -> sim_len (sim_samples c hd fast sd ratio os) <= b)%nat.
+  (forall a, ms = Some a -> sim_len (sim_samples c hd fast sd x os) <= a)%nat /\
+  (forall b, msh = Some b -> sim_len (sim_samples c hd fast sd x os) <= b)%nat.
 Proof. exact wrapper_bound. Qed.
 Print Assumptions C09_sampler_wrapper_bound.
+
+(* Processor.samples as it is now (after /repo commit 5caa1a68) hands filter + herald photons to the sampler: samples and
+   their performances follow [condition ... (flt + herald_total h)], the right-hand side of C04ext's theorems about
+   Simulator.probs_svd — same conditioning for sampling and for strong simulation *)
+Theorem C09_processor_samples_follow_the_conditioning_of_probs : forall spec K mix h p flt,
+  no_photon_created spec K mix -> shots_normalised spec K mix -> pre_phys (flt + herald_total h) mix <> 0 ->
+  let pl := processor_pipeline spec K mix h p flt in
+  let c := condition (shot spec K mix) h p (flt + herald_total h) false in
+  p_phys pl = c_phys c /\ p_logical pl = c_logical c /\
+  (c_phys c * c_logical c <> 0 -> forall T, pr (p_results pl) T = pr (c_results c) T).
+Proof. exact processor_samples_condition. Qed.
+Print Assumptions C09_processor_samples_follow_the_conditioning_of_probs.
+
+(* HISTORICAL, about the code before 5caa1a68 (filter handed over without the herald photons) *)
+Theorem C09_processor_samples_refuted_old_code : exists spec K mix h p flt,
+  no_photon_created spec K mix /\ shots_normalised spec K mix /\ pre_phys (flt + herald_total h) mix <> 0 /\
+  p_phys (processor_pipeline_old_code spec K mix h p flt)
+  <> c_phys (condition (shot spec K mix) h p (flt + herald_total h) false).
+Proof. exact processor_samples_refuted_old_code. Qed.
+Print Assumptions C09_processor_samples_refuted_old_code.
 
 (* (iii) probs_to_sample_count: whenever the repair exits, the table sums to the request, for every rounded
    input and every oracle of valid choices; and some oracle makes it exit *)
